@@ -49,6 +49,48 @@ def u16(text):
     return out
 
 
+# ------------------------------------------------------------------------------------------------ precedence sub-grammar
+def prec_expr(r, d):
+    """token list of an arithmetic expression: numbers, unary minus, + - * /, parentheses"""
+    k = r() % 10
+    if d <= 0 or k < 3:
+        return [str(r() % 100)]
+    if k < 4:
+        return ["-"] + prec_expr(r, d - 1)
+    if k < 6:
+        return ["("] + prec_expr(r, d - 1) + [")"]
+    return prec_expr(r, d - 1) + [["+", "-", "*", "/"][r() % 4]] + prec_expr(r, d - 1)
+
+
+def prec_mutate(r, toks):
+    t = list(toks)
+    for _ in range(1 + r() % 2):
+        if not t:
+            break
+        k = r() % 4
+        i = r() % len(t)
+        if k == 0:
+            del t[i]
+        elif k == 1:
+            t.insert(i, ["+", "-", "*", "(", ")", str(r() % 10)][r() % 6])
+        elif k == 2:
+            j = r() % len(t)
+            t[i], t[j] = t[j], t[i]
+        else:
+            t[i] = ["+", "-", "*", "(", ")", str(r() % 10)][r() % 6]
+    return t
+
+
+def regex_position(toks):
+    """a `/` where JavaScript expects an operand starts a regular expression literal: outside the model's token alphabet"""
+    prev = None
+    for t in toks:
+        if t == "/" and (prev is None or prev in ("+", "-", "*", "/", "(")):
+            return True
+        prev = t
+    return False
+
+
 def run(ck):
     ck.trusted_base += [
         "boa_verif hook Interner::verif_dynamic_strings; harness c19 (parse / to_interned_string / re-parse, AST equality through one interner)",
@@ -187,6 +229,54 @@ def run(ck):
             d = next((x for x in range(min(len(a["out"]), len(b["out"]))) if a["out"][x] != b["out"][x]), min(len(a["out"]), len(b["out"])))
             ck.fail_input({"site": "printed-program-behaves-differently", "input": t, "printed": p1[:1500], "expected": {"out": a["out"][d:d + 3], "completion": a["completion"]},
                            "actual": {"out": b["out"][d:d + 3], "completion": b["completion"]}})
+    # ---- precedence and parentheses: boa's parser/printer == the Lean precedence model (tree shape, verdict, fixpoint)
+    pcases = []
+    for _ in range(600 if quick else 20000):
+        toks = prec_expr(r, 2 + r() % 4)
+        pcases.append(toks)
+        if r() % 3 == 0:
+            pcases.append(prec_mutate(r, toks))
+    pcases = [t for t in pcases if t and len(t) < 200]
+    pans = ck.driver("drv-c19", ["prec " + " ".join(t) for t in pcases])
+    psrc = []
+    for i, t in enumerate(pcases):
+        psrc.append("//// q%d" % i)
+        psrc.append(" ".join(t))
+    rc, pout, perr = ck.run_bin(bins["c19"], input="\n".join(psrc) + "\n")
+    peng = {}
+    for l in pout.split("\n"):
+        if l.startswith("{"):
+            j = json.loads(l)
+            peng[j["id"]] = j
+    pbad = paccept = preject = 0
+    for i, (t, m) in enumerate(zip(pcases, pans)):
+        j = peng.get("q%d" % i)
+        text = " ".join(t)
+        if j is None or j.get("parse") == "panic":
+            pbad += 1
+            ck.fail_input({"site": "precedence-harness", "input": text, "expected": m, "actual": j})
+            continue
+        if m.startswith("tree "):
+            paccept += 1
+            want = m[5:].rsplit(" ", 1)[0]
+            if not m.endswith(" fix"):
+                ck.model_drift({"input": text, "model": m, "implementation": "-", "note": "the model's own parse/print pair is not a fixpoint (theorem parse_print_parse)"})
+            if j.get("parse") != "ok" or j.get("shape") != want or j.get("shape2") != want or not j.get("ast_eq") or j.get("p1") != j.get("p2"):
+                pbad += 1
+                ck.fail_input({"site": "precedence-tree-differs", "input": text, "expected": {"tree": want, "print-parse": "fixpoint"},
+                               "actual": {k: j.get(k) for k in ("parse", "shape", "shape2", "ast_eq", "p1", "p2")}, "oracle": "Lean precedence model (C19.Prec)"})
+        elif m == "reject":
+            preject += 1
+            # a text the engine accepts with a construct outside the model's alphabet (unary plus, a call `1 (2)`, a regular
+            # expression literal) is outside the comparison; inside the alphabet the verdicts must agree
+            if j.get("parse") == "ok" and not regex_position(t) and "?" not in (j.get("shape") or "?"):
+                pbad += 1
+                ck.fail_input({"site": "precedence-accepts-invalid", "input": text, "expected": "a syntax error", "actual": {"shape": j.get("shape"), "p1": j.get("p1")},
+                               "oracle": "Lean precedence model (C19.Prec)"})
+        else:
+            ck.model_drift({"input": text, "model": m, "implementation": "-"})
+    ck.oblige("correspondence:boa parser/printer == C19 precedence model on %d token sequences (%d accepted, %d rejected)" % (len(pcases), paccept, preject),
+              "correspondence", pbad == 0, "%d disagreements" % pbad if pbad else None)
     ck.oblige("correspondence:printer's string literals == C19 model (%d values)" % nstr, "correspondence", True)
     ck.coverage.update({
         "evaluations": len(strings) + len(texts) + 2 * len(ev),
